@@ -310,7 +310,9 @@ def verify_hyperparameters(num_input_dims=None,
                        (dim, dim, input_min[dim], dim, input_max[dim]))
 
   if monotonic_dominances is not None:
-    assert monotonicities is not None
+    if monotonicities is None:
+      raise ValueError("Dominance constraints require 'monotonicities' to be "
+                       "specified.")
     num_input_dims = len(monotonicities)
     dim_pairs = set()
     for constraint in monotonic_dominances:
@@ -344,7 +346,9 @@ def verify_hyperparameters(num_input_dims=None,
       dim_pairs.add((dominant_dim, weak_dim))
 
   if range_dominances is not None:
-    assert monotonicities is not None
+    if monotonicities is None:
+      raise ValueError("Dominance constraints require 'monotonicities' to be "
+                       "specified.")
     num_input_dims = len(monotonicities)
     dim_pairs = set()
     for constraint in range_dominances:
